@@ -75,7 +75,7 @@ Theorem df_run_shift k pre : len pre = k * blockSize -> forall ops f,
     (shift_df k pre (fst (df_run crc f ops)), shift_out k (snd (df_run crc f ops))).
 Proof.
   intros Hpre. induction ops as [|o ops IH]; intros f; [reflexivity|].
-  destruct o as [d|d| |]; cbn [df_run].
+  destruct o as [d|d| | |]; cbn [df_run].
   - rewrite df_write_shift. destruct (df_write crc f d) as [f1 p].
     rewrite IH. destruct (df_run crc f1 ops) as [f2 out]. reflexivity.
   - change (df_stage (shift_df k pre f) d) with (shift_df k pre (df_stage f d)). apply IH.
@@ -83,6 +83,7 @@ Proof.
     rewrite IH. destruct (df_run crc f1 ops) as [f2 out]. cbn [fst snd].
     unfold shift_out at 2. rewrite map_app. rewrite combine_shift. reflexivity.
   - cbn [shift_df df_id df_bytes]. rewrite (df_open_shift k pre _ _ Hpre). apply IH.
+  - change (df_refuse (shift_df k pre f)) with (shift_df k pre (df_refuse f)). apply IH.
 Qed.
 
 (* a file found with k whole blocks of content: everything appended to it *)
